@@ -731,29 +731,46 @@ func (run *Run) buildChoices() []choice {
 	cfg := run.sc.Cfg
 	var cs []choice
 	last := ""
+	scale := 1
+	if cfg.SlowPoint != "" {
+		scale = 8
+	}
 	for _, p := range run.core.parkedQ {
 		n := run.core.final(p)
 		if n == last || !run.grantable(p) {
 			continue
 		}
 		last = n
-		cs = append(cs, choice{kind: "release", rec: p, name: n, weight: cfg.WParked})
+		cs = append(cs, choice{kind: "release", rec: p, name: n, weight: cfg.WParked * scale / run.slowness(p)})
 	}
 	if run.cur != nil && !run.cur.isDead() {
 		for c, st := range run.clients {
 			if !st.busy && st.next < len(run.sc.Clients[c]) {
-				cs = append(cs, choice{kind: "start", client: c, name: fmt.Sprintf("start:c%d", c), weight: cfg.WClient})
+				cs = append(cs, choice{kind: "start", client: c, name: fmt.Sprintf("start:c%d", c), weight: cfg.WClient * scale})
 			}
 		}
 	}
 	if cfg.WSettle > 0 {
-		cs = append(cs, choice{kind: "settle", name: "settle", weight: cfg.WSettle})
+		cs = append(cs, choice{kind: "settle", name: "settle", weight: cfg.WSettle * scale})
 	}
 	if cfg.WCrash > 0 && len(run.worlds) < 4 {
-		cs = append(cs, choice{kind: "crash", name: "crash", weight: cfg.WCrash})
+		cs = append(cs, choice{kind: "crash", name: "crash", weight: cfg.WCrash * scale})
 	}
-	cs = append(cs, choice{kind: "advance", name: "advance", weight: cfg.WAdvance})
+	cs = append(cs, choice{kind: "advance", name: "advance", weight: cfg.WAdvance * scale})
 	return cs
+}
+
+// slowness: 8 for a record parked at the run's stalled hook point, else 1.
+func (run *Run) slowness(p *parked) int {
+	sp := run.sc.Cfg.SlowPoint
+	if sp == "" {
+		return 1
+	}
+	point, _, _, _, _, _ := p.rd()
+	if point == sp || strings.HasPrefix(point, sp+".") || strings.HasPrefix(point, "auto.") && strings.Contains(point, ":"+sp+"#") {
+		return 8
+	}
+	return 1
 }
 
 func (run *Run) pickWeighted(cs []choice) choice {
